@@ -36,15 +36,51 @@ func (r *rs) header() {
 			lit = fl
 		}
 	}
-	if lit == nil || rd == nil {
+	// the region that parses the header: the goroutine literal, or the body of a same-package function
+	// started with `go f(r, size)` (then the stream and the channel are that function's parameters)
+	var body *ast.BlockStmt
+	var g *cfgq.Graph
+	scan := []ast.Node{fn.Decl.Body}
+	var retChan types.Object // when the region is a helper: the caller's channel handed to it
+	var chanParam types.Object
+	if lit != nil {
+		body, g = lit.Body, cfgq.OfLit(c.Program, info, lit)
+	} else if rd != nil {
+		core.Inspect(fn.Decl.Body, func(m ast.Node) bool {
+			gs, ok := m.(*ast.GoStmt)
+			if !ok || body != nil {
+				return true
+			}
+			h := c.Program.FnOf(core.CalleeFunc(info, gs.Call))
+			if h == nil || h.Pkg != fn.Pkg || h.Decl.Recv != nil {
+				return true
+			}
+			h = r.inl.Fn(h)
+			var newRd types.Object
+			for i, a := range gs.Call.Args {
+				_, po := param(h, i)
+				if flow.IsObj(info, rd)(a) {
+					newRd = po
+				} else if _, isChan := info.TypeOf(a).Underlying().(*types.Chan); isChan && po != nil {
+					retChan, chanParam = flow.Obj(info, a), po
+				}
+			}
+			if newRd != nil {
+				// the only use of the stream in the caller is this hand-over
+				body, g, rd = h.Decl.Body, cfgq.Of(c.Program, h), newRd
+				scan = []ast.Node{h.Decl.Body}
+			}
+			return true
+		})
+	}
+	if body == nil || rd == nil {
 		c.Undecidedf("R1.header", "waitRdbDump/reader-uses", fn.Decl.Pos(), "cannot find the goroutine that reads the reply header")
 		return
 	}
-	g := cfgq.OfLit(c.Program, info, lit)
 	// every use of the stream is a 1-byte Read
 	var reads []*ast.CallExpr
 	handled := map[*ast.Ident]bool{}
-	core.InspectAll(fn.Decl.Body, func(m ast.Node) bool {
+	core.InspectAll(scan[0], func(m ast.Node) bool {
 		call, ok := m.(*ast.CallExpr)
 		if !ok {
 			return true
@@ -66,7 +102,7 @@ func (r *rs) header() {
 		}
 		return true
 	})
-	core.InspectAll(fn.Decl.Body, func(m ast.Node) bool {
+	core.InspectAll(scan[0], func(m ast.Node) bool {
 		if id, ok := m.(*ast.Ident); ok && info.Uses[id] == rd && !handled[id] {
 			c.Undecidedf("R1.header", "waitRdbDump/reader-uses", id.Pos(), "unrecognised use of the stream")
 		}
@@ -74,24 +110,37 @@ func (r *rs) header() {
 	})
 	var buf types.Object
 	for _, call := range reads {
-		buf = flow.Obj(info, call.Args[0])
+		// the buffer: a slice variable, or an array sliced in full at the call (`one[:]`)
+		arg := ast.Unparen(call.Args[0])
+		if se, ok := arg.(*ast.SliceExpr); ok && se.Low == nil && se.High == nil && se.Max == nil {
+			arg = ast.Unparen(se.X)
+		}
+		buf = flow.Obj(info, arg)
 		if buf == nil {
 			c.Undecidedf("R1.header", "waitRdbDump/one-byte-read", call.Pos(), "Read into %s, not a plain buffer variable", c.Src(call.Args[0]))
 			continue
 		}
-		defs, other := defsOf(info, fn.Decl.Body, buf)
-		if len(defs) == 0 || other > 0 {
-			c.Undecidedf("R1.header", "waitRdbDump/one-byte-read", call.Pos(), "definition of the read buffer not recognised")
-			continue
+		var lens []int64
+		if at, isArr := buf.Type().Underlying().(*types.Array); isArr {
+			lens = []int64{at.Len()}
+		} else {
+			defs, other := defsOf(info, scan[0], buf)
+			if len(defs) == 0 || other > 0 {
+				c.Undecidedf("R1.header", "waitRdbDump/one-byte-read", call.Pos(), "definition of the read buffer not recognised")
+				continue
+			}
+			for _, d := range defs {
+				lens = append(lens, bufLen(info, d))
+			}
 		}
-		for _, d := range defs {
-			switch n := bufLen(info, d); {
+		for _, n := range lens {
+			switch {
 			case n == 1:
 				c.Okf("R1.header", "waitRdbDump/one-byte-read", call.Pos(), "the header is read through a buffer of constant length 1")
 			case n > 1:
 				c.Failf("R1.header", "waitRdbDump/one-byte-read", call.Pos(), "the header is read through a %d-byte buffer: one Read can return bytes beyond '$n\\r\\n' (the start of the RDB); they are discarded with the header and the RDB consumer no longer sees exactly the n announced bytes", n)
 			default:
-				c.Undecidedf("R1.header", "waitRdbDump/one-byte-read", call.Pos(), "length of the read buffer %s is not a constant", c.Src(d))
+				c.Undecidedf("R1.header", "waitRdbDump/one-byte-read", call.Pos(), "length of the read buffer is not a constant")
 			}
 		}
 	}
@@ -107,12 +156,47 @@ func (r *rs) header() {
 	isRead := flow.CallOn(g, func(call *ast.CallExpr) bool { return call == reads[0] })
 
 	// ---- R4 framing
-	app, ab := pat.Stmt("_rsp += string(_b)").Find(info, lit.Body, nil)
-	if app == nil || flow.Obj(info, ab["_b"]) != buf {
-		c.Undecidedf("R4.frame", "waitRdbDump/accumulate", lit.Pos(), "cannot find `rsp += string(b)` over the read buffer")
+	// the statement that stores the byte just read: rsp += string(b), rsp = rsp + string(b),
+	// rsp = append(rsp, b[0]) or rsp = append(rsp, b...)
+	isBuf := func(e ast.Expr) bool { // b, b[:], string(b), b[0]
+		e = unconv(info, e)
+		switch x := e.(type) {
+		case *ast.SliceExpr:
+			return x.Low == nil && x.High == nil && flow.IsObj(info, buf)(x.X)
+		case *ast.IndexExpr:
+			return flow.IsObj(info, buf)(x.X) && isConst(info, x.Index, 0)
+		}
+		return flow.IsObj(info, buf)(e)
+	}
+	var app ast.Node
+	var rsp types.Object
+	core.Inspect(body, func(m ast.Node) bool {
+		as, ok := m.(*ast.AssignStmt)
+		if !ok || len(as.Lhs) != 1 || len(as.Rhs) != 1 || app != nil {
+			return true
+		}
+		lo := flow.Obj(info, as.Lhs[0])
+		if lo == nil {
+			return true
+		}
+		rhs := ast.Unparen(as.Rhs[0])
+		switch {
+		case as.Tok == token.ADD_ASSIGN && isBuf(rhs):
+			app, rsp = as, lo
+		case as.Tok == token.ASSIGN:
+			if be, ok := rhs.(*ast.BinaryExpr); ok && be.Op == token.ADD && flow.IsObj(info, lo)(be.X) && isBuf(be.Y) {
+				app, rsp = as, lo
+			}
+			if call, ok := rhs.(*ast.CallExpr); ok && flow.IsBuiltin(info, call, "append") && len(call.Args) == 2 && flow.IsObj(info, lo)(call.Args[0]) && isBuf(call.Args[1]) {
+				app, rsp = as, lo
+			}
+		}
+		return true
+	})
+	if app == nil {
+		c.Undecidedf("R4.frame", "waitRdbDump/accumulate", body.Pos(), "cannot find the statement that appends the byte read to the header")
 		return
 	}
-	rsp := flow.Obj(info, ab["_rsp"])
 	isRsp := flow.IsObj(info, rsp)
 	var ticks, sizes []cfgq.Point
 	var chanObj types.Object
@@ -132,8 +216,8 @@ func (r *rs) header() {
 		return
 	}
 	tick, size := ticks[0], sizes[0]
-	hdr := flow.NewBuffer(info, lit.Body, rsp, nil)                              // the accumulated header
-	one := flow.NewBuffer(info, lit.Body, buf, mustConstExpr(info, lit.Body, 1)) // the 1-byte read buffer
+	hdr := flow.NewBuffer(info, body, rsp, nil)                          // the accumulated header
+	one := flow.NewBuffer(info, body, buf, mustConstExpr(info, body, 1)) // the 1-byte read buffer
 	zero := lin.Form{Coef: map[string]int64{}}
 	r.guard("R4.frame", "waitRdbDump/tick-before-header-only", tick.Node().Pos(), g, tick, hdr.LenIs(0), flow.Opaque(g, hdr.Understood, rsp),
 		"a 0 tick may be sent only while no header byte was stored (len(rsp) == 0): otherwise the LF that ends '$n\\r\\n' is swallowed as a keep-alive and the header never completes")
@@ -150,7 +234,7 @@ func (r *rs) header() {
 	// the number: Atoi/ParseInt over a window of the header
 	var atoi *ast.AssignStmt
 	var win *ast.SliceExpr
-	core.Inspect(lit.Body, func(m ast.Node) bool {
+	core.Inspect(body, func(m ast.Node) bool {
 		as, ok := m.(*ast.AssignStmt)
 		if !ok || len(as.Rhs) != 1 || len(as.Lhs) != 2 || atoi != nil {
 			return true
@@ -159,7 +243,7 @@ func (r *rs) header() {
 		if f := core.CalleeFunc(info, call); !ok || f == nil || len(call.Args) == 0 || !(core.IsFunc(f, "strconv", "", "Atoi") || core.IsFunc(f, "strconv", "", "ParseInt")) {
 			return true
 		}
-		if se, isSlice := ast.Unparen(flow.ValueOf(info, lit.Body, ast.Unparen(call.Args[0]))).(*ast.SliceExpr); isSlice && isRsp(se.X) && se.Max == nil {
+		if se, isSlice := unconv(info, flow.ValueOf(info, body, unconv(info, call.Args[0]))).(*ast.SliceExpr); isSlice && isRsp(se.X) && se.Max == nil {
 			atoi, win = as, se
 		}
 		return true
@@ -193,8 +277,8 @@ func (r *rs) header() {
 	nb := pat.Binds{"_n": atoi.Lhs[0]}
 	nobj := flow.Obj(info, nb["_n"])
 	sv := size.Node().(*ast.SendStmt)
-	sent := unconv(info, flow.Resolve(info, lit.Body, unconv(info, sv.Value)))
-	if be, isBin := sent.(*ast.BinaryExpr); flow.IsObj(info, nobj)(sent) && flow.Assignments(info, lit.Body, nobj) == 1 {
+	sent := unconv(info, flow.ChaseDef(g, unconv(info, flow.Resolve(info, body, unconv(info, sv.Value))), size))
+	if be, isBin := sent.(*ast.BinaryExpr); flow.IsObj(info, nobj)(sent) && flow.Assignments(info, body, nobj) == 1 {
 		c.Okf("R4.frame", "waitRdbDump/size-sent-unchanged", sv.Pos(), "the value announced on the channel is exactly the parsed n")
 	} else if isBin && (be.Op == token.ADD || be.Op == token.SUB) && flow.IsObj(info, nobj)(unconv(info, be.X)) && !isConst(info, be.Y, 0) {
 		c.Failf("R4.frame", "waitRdbDump/size-sent-unchanged", sv.Pos(), "the value announced is %s, not the parsed n: the RDB copy counts down from it and hands over to the command phase too early or too late", c.Src(sv.Value))
@@ -209,7 +293,7 @@ func (r *rs) header() {
 	// the channel returned is the one written
 	retOK := false
 	core.Inspect(fn.Decl.Body, func(m ast.Node) bool {
-		if ret, ok := m.(*ast.ReturnStmt); ok && len(ret.Results) == 1 && flow.IsObj(info, chanObj)(ret.Results[0]) {
+		if ret, ok := m.(*ast.ReturnStmt); ok && len(ret.Results) == 1 && (flow.IsObj(info, chanObj)(ret.Results[0]) || chanParam != nil && chanObj == chanParam && flow.IsObj(info, retChan)(ret.Results[0])) {
 			retOK = true
 		}
 		return true
